@@ -211,13 +211,13 @@ func (e customErr) Error() string { return fmt.Sprintf("custom error %d", e.code
 //go:noinline
 func siteA(t *rapid.T, msg string) { t.Fatalf("site A (100%%, %%d %%v): %s", msg) }
 
-// two sites that differ only in the frame below a 40-deep recursion
+// two sites that differ only in the frame below a 36-deep recursion
 //
 //go:noinline
-func deepSiteA(t *rapid.T, msg string) { deepRecurse(40, t, msg) }
+func deepSiteA(t *rapid.T, msg string) { deepRecurse(36, t, msg) }
 
 //go:noinline
-func deepSiteB(t *rapid.T, msg string) { deepRecurse(40, t, msg) }
+func deepSiteB(t *rapid.T, msg string) { deepRecurse(36, t, msg) }
 
 //go:noinline
 func deepRecurse(n int, t *rapid.T, msg string) {
